@@ -34,3 +34,19 @@ func C05LayoutOf(s shadowsocks.Service) (l C05RelayLayout, ok bool) {
 	}
 	return l, false
 }
+
+// C05ListenAddr returns the address the first UDP listener of a started relay
+// service is bound to ("" when the service has none).
+func C05ListenAddr(s shadowsocks.Service) string {
+	switch r := s.(type) {
+	case *UDPNATRelay:
+		if len(r.listeners) > 0 {
+			return r.listeners[0].address
+		}
+	case *UDPSessionRelay:
+		if len(r.listeners) > 0 {
+			return r.listeners[0].address
+		}
+	}
+	return ""
+}
